@@ -113,10 +113,23 @@ def _min(a, b):
     return -_max(-a, -b)
 
 
+def _abs(x):
+    x = sp.sympify(x)
+    if x.is_nonnegative:
+        return x
+    if x.is_nonpositive:
+        return -x
+    if Shadow.point is not None and x.is_real is not False and not x.has(sp.I):
+        t = _truth(sp.Ge(x, 0))
+        if t is not None:
+            return x if t else -x
+    return sp.Abs(x)
+
+
 _UNARY = dict(
     neg=lambda x: -x, exp=sp.exp, log=sp.log, log1p=lambda x: sp.log(1 + x), expm1=lambda x: sp.exp(x) - 1, sqrt=sp.sqrt,
     rsqrt=lambda x: 1 / sp.sqrt(x), tanh=sp.tanh, sin=sp.sin, cos=sp.cos, tan=sp.tan, sinh=sp.sinh, cosh=sp.cosh,
-    logistic=lambda x: 1 / (1 + sp.exp(-x)), abs=sp.Abs, sign=sp.sign, erf=sp.erf, erfc=lambda x: 1 - sp.erf(x), erf_inv=sp.erfinv,
+    logistic=lambda x: 1 / (1 + sp.exp(-x)), abs=lambda x: _abs(x), sign=sp.sign, erf=sp.erf, erfc=lambda x: 1 - sp.erf(x), erf_inv=sp.erfinv,
     square=lambda x: x * x, conj=sp.conjugate, real=sp.re, imag=sp.im, atan=sp.atan, asin=sp.asin, acos=sp.acos, asinh=sp.asinh,
     acosh=sp.acosh, atanh=sp.atanh, lgamma=sp.loggamma, digamma=sp.digamma, stop_gradient=lambda x: x, copy=lambda x: x, copy_p=lambda x: x,
     real_p=sp.re, is_finite=lambda x: sp.true, cbrt=lambda x: sp.cbrt(x),
@@ -311,7 +324,14 @@ class Evaluator:
                 if all(getattr(e, "is_integer", False) or e in (sp.true, sp.false) for e in x.ravel()):
                     return x
                 raise symx.EngineLimit("cast of a symbolic real to an integer/boolean dtype")
-            return to_obj(invals[0])
+            def b2f(e):
+                if isinstance(e, (sp.logic.boolalg.BooleanFunction, sp.core.relational.Relational, sp.logic.boolalg.BooleanAtom)):
+                    t = _truth(e)
+                    if t is not None:
+                        return sp.Integer(1 if t else 0)
+                    return sp.Piecewise((1, e), (0, True))
+                return e
+            return _ew(b2f, invals[0])
         # ---- shapes
         if name == "broadcast_in_dim":
             x = to_obj(invals[0])
